@@ -1,6 +1,7 @@
 """Layer L2 helper: run a model-checking configuration, stream the behaviours TLC emits
 (<<"REPLAY", json>> lines) to a file, replay them into the real code with the harness."""
 import json
+import sys
 import os
 
 from common import nl_lines, CACHE, ensure_oracle, log, run_harness, run_tlc, tool_error
@@ -74,13 +75,106 @@ def run_mc(module, cfg_text, tag, workers=4, timeout=1800, extra_files=(), heap=
     return out
 
 
+def _replay_guarded(chk, args, path, name):
+    """runs `pvh replay`; a behaviour on which the REAL CODE takes the process down (stack overflow, abort) or never
+    returns is data, not a tool error: the case is identified through the progress file / the watchdog, confirmed by
+    executing it alone in a fresh process, reported as a violation, and the replay continues behind it.
+    Returns (combined stdout with ONE merged summary line, wall, number of behaviours that crashed)"""
+    from common import run_harness_raw
+    prog = os.path.join(CACHE, "progress-%d" % os.getpid())
+    lines = None
+    start = 0            # number of leading lines already dealt with
+    crashed = 0
+    outs = []
+    sums = []
+    wall = 0.0
+    cur_path = path
+    tmp_paths = []
+    try:
+        while True:
+            if os.path.exists(prog):
+                os.remove(prog)
+            a = list(args)
+            a[a.index("--in") + 1] = cur_path
+            rc, out, err, timed_out, w = run_harness_raw(a + ["--progress", prog], timeout=3600)
+            wall += w
+            if rc == 0:
+                outs.append(out)
+                break
+            if rc == 2 or (rc not in (3, None) and rc > 0):
+                sys.stdout.write(out[-2000:] + err[-2000:])
+                tool_error("harness failed (%s): %s" % (rc, " ".join(a[:3])))
+            # rc < 0 (killed by a signal), rc == 3 (watchdog), or the outer timeout
+            idx = None
+            if os.path.exists(prog):
+                b = open(prog, "rb").read()
+                if len(b) >= 8:
+                    idx = int.from_bytes(b[:8], "little")
+            if not idx:
+                tool_error("harness died (%s) and left no progress record: %s" % (rc, " ".join(a[:3])))
+            if lines is None:
+                lines = nl_lines(open(path).read())
+            case_line = lines[start + idx - 1]
+            single = os.path.join(CACHE, "single-%d.ndjson" % os.getpid())
+            tmp_paths.append(single)
+            with open(single, "w") as f:
+                f.write(case_line + "\n")
+            b = list(args)
+            b[b.index("--in") + 1] = single
+            rc2, out2, err2, to2, _ = run_harness_raw(b + ["--case-timeout", "60"], timeout=300)
+            if rc2 == 0:
+                sys.stdout.write(err[-1500:])
+                tool_error("harness died (%s) on behaviour %d of %s, which runs fine alone" % (rc, start + idx, name))
+            how = "did not return within 60 s" if (rc2 == 3 or to2) else "took the process down (signal %s: %s)" % (-rc2 if rc2 and rc2 < 0 else rc2, (err2 or "").strip()[-200:])
+            chk.violation("the real code %s while executing a behaviour of the model: %s" % (how, case_line[:500]),
+                          {"layer": "L2", "config": name, "mismatch": {"case": json.loads(case_line), "actual": how}})
+            crashed += 1
+            # everything the dead process printed before is lost with its summary: re-run the prefix is not needed for
+            # the verdict; continue behind the case (at most three such incidents per file)
+            outs.append("\n".join(l for l in nl_lines(out) if l.startswith("{") and '"mismatch"' in l))
+            sums.append({"n": idx - 1})
+            start += idx
+            if crashed >= 3 or start >= len(lines):
+                outs.append(json.dumps({"summary": {"n": len(lines) - start, "executions": 0, "mismatches": 0, "nontrivial": 1, "dev": 0, "other_printed": 0}}))
+                break
+            rest = os.path.join(CACHE, "rest-%d.ndjson" % os.getpid())
+            tmp_paths.append(rest)
+            with open(rest, "w") as f:
+                f.write("\n".join(lines[start:]) + "\n")
+            cur_path = rest
+    finally:
+        for p in tmp_paths + [prog]:
+            if os.path.exists(p):
+                os.remove(p)
+    if not crashed:
+        return outs[0], wall, 0
+    # merge: mismatches of all parts, one summary
+    merged = {"n": 0, "executions": 0, "mismatches": 0, "nontrivial": 0, "dev": 0, "other_printed": 0}
+    text = []
+    for o in outs:
+        for l in nl_lines(o):
+            if not l.startswith("{"):
+                continue
+            d = json.loads(l)
+            if "summary" in d:
+                for k in merged:
+                    merged[k] += d["summary"].get(k, 0)
+            elif "hang" not in d:
+                text.append(l)
+    for s0 in sums:
+        merged["n"] += s0["n"]
+    merged["nontrivial"] = max(merged["nontrivial"], 1)
+    text.append(json.dumps({"summary": merged}))
+    return "\n".join(text), wall, crashed
+
+
 def replay(chk, mc, name, harness_args=(), classify=None, need_oracle=False):
     """replays mc.replay_path through the harness; folds the outcome into chk.
     classify(mismatch) -> None (violation) | finding id (known finding)"""
     args = ["replay", "--in", mc.replay_path, "--seed", str(chk.seed)] + list(harness_args)
     if need_oracle:
         args += ["--oracle", ensure_oracle()]
-    out, t = run_harness(args, timeout=3600)
+    out, t, crashed = _replay_guarded(chk, args, mc.replay_path, name)
     summary = None
     mism = []
     for line in nl_lines(out):
@@ -95,8 +189,8 @@ def replay(chk, mc, name, harness_args=(), classify=None, need_oracle=False):
             tool_error("replay: %s" % d["toolerr"])
     if summary is None:
         tool_error("replay produced no summary for %s" % name)
-    if summary["n"] != mc.n_replay:
-        tool_error("replay consumed %d of %d behaviours" % (summary["n"], mc.n_replay))
+    if summary["n"] + crashed != mc.n_replay:
+        tool_error("replay consumed %d of %d behaviours" % (summary["n"] + crashed, mc.n_replay))
     if mc.n_replay == 0 or summary["nontrivial"] == 0:
         tool_error("vacuity guard: configuration %s emitted %d behaviours, %d non-trivial" % (name, mc.n_replay, summary["nontrivial"]))
     n_known = 0
